@@ -283,8 +283,44 @@ static void ro_case_api(uint64_t u, uint64_t seed) {
   } else VH_COUNT("skipped.build_failed", 1);
 }
 
+/* big nodes in the protected zone: anything an operation does only above a size threshold (shrink-to-fit, a scratch copy,
+ * a different code path for long payloads) happens here and nowhere in the small generated trees */
+static void ro_case_big(int kind) {
+  uint8_t desc[2] = {'B', (uint8_t)kind};
+  if (!vh_case(desc, 2)) return;
+  static const char* const kn[] = {"chunked byte string of 3 x 24 MiB chunks", "chunked text string of 5 x 16 MiB chunks", "definite array of 5 x 16 MiB byte strings", "definite byte string of 70 MiB", "indefinite map with three 24 MiB text values"};
+  ar_reset();
+  size_t cap0 = AR_cap;
+  AR_cap = (size_t)200 << 20;
+  size_t unit = kind == 0 || kind == 4 ? (size_t)24 << 20 : kind == 3 ? (size_t)70 << 20 : (size_t)16 << 20;
+  unsigned char* pay = malloc(unit);
+  for (size_t i = 0; i < unit; i++) pay[i] = (uint8_t)('a' + (i * 5 + i / 977) % 26);
+  cbor_item_t* sub = (kind == 1 || kind == 4) ? cbor_build_stringn((const char*)pay, unit) : cbor_build_bytestring(pay, unit);
+  free(pay);
+  cbor_item_t* root = NULL;
+  bool ok = sub != NULL;
+  if (ok) switch (kind) {
+    case 0: root = cbor_new_indefinite_bytestring(); for (int i = 0; i < 3 && ok; i++) ok = cbor_bytestring_add_chunk(root, sub); break;
+    case 1: root = cbor_new_indefinite_string(); for (int i = 0; i < 5 && ok; i++) ok = cbor_string_add_chunk(root, sub); break;
+    case 2: root = cbor_new_definite_array(7); for (int i = 0; i < 5 && ok; i++) ok = cbor_array_push(root, sub); break;
+    case 3: root = cbor_incref(sub); break;
+    default: { root = cbor_new_indefinite_map(); cbor_item_t* k = cbor_build_uint8(3); for (int i = 0; i < 3 && ok; i++) ok = cbor_map_add(root, (struct cbor_pair){.key = k, .value = sub}); cbor_decref(&k); }
+  }
+  if (!root || !ok) { AR_cap = cap0; vh_die("ro big: building the %s failed", kn[kind]); }
+  char origin[96];
+  snprintf(origin, sizeof origin, "construction calls (%s)", kn[kind]);
+  tree_case(root, origin);
+  cbor_decref(&root);
+  cbor_decref(&sub);
+  AR_cap = cap0;
+  if (AR_live) vh_violation("leak", "%llu arena block(s) left", (unsigned long long)AR_live);
+  VH_COUNT("big_trees", 1);
+  vh_nontrivial(vh_hash(desc, 2));
+}
+
 static void ro_run(void) {
   ro_setup();
+  for (int kind = 0; kind < 5; kind++) if (kind % O.nshards == O.shard) ro_case_big(kind);
   uint64_t nsys = gen_systematic_count();
   uint64_t nrand = O.budget ? O.budget : (O.thorough ? 100000 : 10000);
   struct vh_buf x = {0};
@@ -311,6 +347,7 @@ static void ro_run(void) {
 }
 static void ro_exec(const uint8_t* d, size_t n) {
   ro_setup();
+  if (n == 2 && d[0] == 'B') { ro_case_big(d[1]); return; }
   if (n >= 1 && d[0] == 'D') { ro_case_input(d + 1, n - 1); return; }
   if (n == 17 && d[0] == 'A') { uint64_t u = 0, s = 0; for (int i = 0; i < 8; i++) { u = u << 8 | d[1 + i]; s = s << 8 | d[9 + i]; } ro_case_api(u, s); return; }
   printf("unrecognised descriptor\n");
